@@ -144,11 +144,21 @@ func buildComplete(g *Gen, gm *GMsg, item ast.ItemNode, route int) *ast.DataMess
 		if g.pick(2) == 0 {
 			w = gm.W
 		}
-		m := ast.NewDataMessage(gm.Name, gm.S, gm.F, w, gm.Dir, item)
+		// every intermediate message is looked at before the next producer is called (a sender probing whether it can
+		// send yet): what an observer answered for a predecessor must not stick to the successor
+		probe := func(m *ast.DataMessage) *ast.DataMessage {
+			if g.pick(2) == 0 {
+				_ = m.ToBytes()
+				_ = m.String()
+				_ = m.Variables()
+			}
+			return m
+		}
+		m := probe(ast.NewDataMessage(gm.Name, gm.S, gm.F, w, gm.Dir, item))
 		if g.pick(2) == 0 {
-			m = m.SetSessionIDAndSystemBytes(gm.Sid, gm.Sys).SetWaitBit(gm.W == 1)
+			m = probe(probe(m.SetSessionIDAndSystemBytes(gm.Sid, gm.Sys)).SetWaitBit(gm.W == 1))
 		} else {
-			m = m.SetWaitBit(gm.W == 1).SetSessionIDAndSystemBytes(gm.Sid, gm.Sys)
+			m = probe(probe(m.SetWaitBit(gm.W == 1)).SetSessionIDAndSystemBytes(gm.Sid, gm.Sys))
 		}
 		return m
 	}
@@ -160,7 +170,7 @@ func sizeBoundaryItem(g *Gen, big bool) *GItem {
 	// (the 65535|65536 boundary is exercised by the "big" driver, whose events are run-length summaries)
 	counts := []int{254, 255, 256, 257}
 	if big {
-		counts = []int{1023, 1024, 4095}
+		counts = []int{1023, 1024, 1025, 2049, 4095}
 	}
 	n := counts[g.pick(len(counts))]
 	f := allFormats[g.pick(len(allFormats))]
